@@ -639,6 +639,14 @@ impl<W: Write + io::Seek> ZipWriter<W> {
         let data_start = file.data_start.get_mut();
 
         if !self.writing_to_central_extra_field_only {
+            // a previous error (e.g. an unsupported method or level) may have closed the writer
+            if self.inner.is_closed() {
+                return Err(io::Error::new(
+                    io::ErrorKind::BrokenPipe,
+                    "ZipWriter was already closed",
+                )
+                .into());
+            }
             let writer = self.inner.get_plain();
 
             // Append extra data to local file header and keep it for central file header.
